@@ -4,8 +4,8 @@ from .. import common, gen, modelio, pipefam, pool, cli
 
 RULE = ("malformed stream: one defect inserted into an otherwise valid generated pair -- duplicate gene identifier (same / other "
         "chromosome, at first / last / random row positions), strand symbol outside + - . (at first / last / random rows), each required "
-        "column dropped in turn, chromosome sets differing with equal and unequal cardinality; every fifth variant with a defect of the gene annotation, and every missing-gene-column variant a second time, in an output directory where the valid pair "
-        "was processed before, with older modification times; every variant through the real library "
+        "column dropped in turn, chromosome sets differing with equal and unequal cardinality; every fifth variant with a defect of the gene annotation, and every missing-column variant (either file) a second time, in an output directory where the valid pair "
+        "was processed before, with older modification times; gene files of 10400 rows (thorough: up to 70000) with the duplicate identifier on rows far apart or adjacent across a round row count; every variant through the real library "
         "stages (must raise, no <genome>_<chrom>.h5 left) and a sample through the CLI (exit status non-zero, no result file); "
         "non-trivial = defect not in the first row; distinct = canonical JSON of the variant")
 BAD_STRANDS = ["*", "x", "++", "0", "plus", "?", "+-", "-.", "+-.", "-+", ".+", "+ ", " -", "\uff0b", "\u2013", ".."]
@@ -55,6 +55,33 @@ def variants(r, base, all_positions):
     return out
 
 
+def large_dup_case(n, i, j):
+    """a gene annotation of n rows on two chromosomes (more rows than any block a reader might split the file into) in which row j
+    carries the gene identifier of row i; deterministic, so that a replay names it by (n, i, j)"""
+    genes = []
+    for k in range(n):
+        ch = "Chr1" if k % 2 == 0 else "Chr2"
+        s = 1000 + 700 * (k // 2)
+        genes.append({"name": "gene_%05d" % k, "chrom": ch, "start": s, "stop": s + 300 + (k % 7) * 20, "strand": "+-."[k % 3]})
+    genes[j]["name"] = genes[i]["name"]
+    tes = [{"chrom": ch, "start": 500 + 9000 * q, "stop": 900 + 9000 * q + 100 * (q % 3), "order": "LTR" if q % 2 else "DNA",
+            "superfam": "Gypsy" if q % 2 else "hAT", "strand": "+"} for ch in ("Chr1", "Chr2") for q in range(12)]
+    return {"genes": genes, "tes": tes, "windows": [500, 500, 1000], "defect": "duplicate gene identifier: rows %d and %d of %d" % (i, j, n), "pos": j}
+
+
+def large_dup_run(chk, spec):
+    c = large_dup_case(**spec)
+    rep = pipefam.run_impl([c], timeout=600)[0]
+    bad = None
+    if rep.get("ok"):
+        bad = {"kind": "accepted", "result_files": [f["file"] for f in rep["files"]][:4]}
+    elif rep.get("result_files"):
+        bad = {"kind": "rejected_after_result_written", "result_files": rep["result_files"], "exc": rep.get("exc")}
+    elif rep.get("exc") in ("Timeout", "WorkerDied"):
+        bad = {"kind": "no_clean_error", "exc": rep.get("exc")}
+    return c, rep, bad
+
+
 def model_expr(c):
     rk, order = modelio.ranks(c)
     gl, tl, res = modelio.lits(c, rk)
@@ -80,11 +107,12 @@ def run(chk):
     # modification times older than the intermediates of that run: it must be rejected all the same
     extra = []
     for i, c in enumerate(vs):
-        dropped = c.get("drop_gene_cols")
+        # a missing column of either file is noticed when the file is imported, whatever the directory holds
+        dropped = c.get("drop_gene_cols") or c.get("drop_te_cols")
         # only defects of the GENE annotation: without --revise_anno an existing revised TE annotation is reused and an edited TE
         # file is not read at all (the caching that C13 describes), so a defect put into it is invisible by design
         gene_side = c["tes"] == c["_base"]["tes"] and not c.get("drop_te_cols")
-        if (i % 5 == 4 or dropped) and gene_side:
+        if (i % 5 == 4 or dropped) and (gene_side or c.get("drop_te_cols")):
             base_of = {k: c["_base"][k] for k in ("genes", "tes", "windows")}
             cc = copy.deepcopy(c) if dropped else c         # a missing column: both in a fresh and in a used directory
             cc["before"] = {"case": base_of, "genome": "G", "backdate_inputs": True, "same_names": True}
@@ -124,6 +152,17 @@ def run(chk):
                 ndiff += 1
                 first = first or {"defect": c["defect"], "model": flats[i], "implementation_ok": rep.get("ok"), "exc": rep.get("exc")}
     chk.oblige("correspondence model = implementation on every variant (accept / reject)", ndiff == 0, json.dumps(first)[:2000] if first else "")
+    # large files: the two rows carrying one identifier far apart / first and last / adjacent across a round row count
+    specs = [{"n": 10400, "i": 10, "j": 10200}, {"n": 10400, "i": 9999, "j": 10000}] if chk.tier == "quick" else \
+            [{"n": 10400, "i": 10, "j": 10200}, {"n": 10400, "i": 9999, "j": 10000}, {"n": 10400, "i": 0, "j": 10399}, {"n": 70000, "i": 65535, "j": 65536},
+             {"n": 20500, "i": 4095, "j": 16384}, {"n": 5000, "i": 1023, "j": 1024}]
+    for spec in specs:
+        c, rep, bad = large_dup_run(chk, spec)
+        chk.cov["evaluations"] += 1
+        chk.count("defect:duplicate gene (large file)")
+        if bad:
+            chk.violation("malformed annotation pair not rejected before a result was written: " + c["defect"],
+                          {"large_dup": spec, "defect": c["defect"], "failure": bad})
     # CLI sample: exit status and absence of result files
     ncli = 8 if chk.tier == "quick" else 60
     step = max(1, len(vs) // ncli)
@@ -143,6 +182,10 @@ def run(chk):
 
 
 def replay(chk, rp):
+    if "large_dup" in rp:
+        c, rep, bad = large_dup_run(chk, rp["large_dup"])
+        print(json.dumps({"library_ok": rep.get("ok"), "exc": rep.get("exc"), "failure": bad}, indent=1))
+        return 1 if bad else 0
     c = dict(rp["case"]); c["drop_gene_cols"] = rp.get("drop_gene_cols", []); c["drop_te_cols"] = rp.get("drop_te_cols", [])
     rep = pipefam.run_impl([c])[0]
     bad = rep.get("ok") or rep.get("result_files")
